@@ -144,6 +144,15 @@ func getKeyOfValue(v ssa.Value) (string, bool) {
 			return "", false
 		case *ssa.TypeAssert:
 			v = x.X
+		case *ssa.Phi:
+			a := phiAlias[x]
+			if a == nil {
+				a = phiModuloZero(x)
+			}
+			if a == nil {
+				return "", false
+			}
+			v = a
 		case *ssa.MakeInterface:
 			v = x.X
 		case *ssa.ChangeInterface:
@@ -455,6 +464,7 @@ type Atom struct {
 	X    ssa.Value  // subject value (typeis/dollar/nil)
 	Type types.Type // typeis
 	Or   []Atom     // disjunction
+	Set  []string   // inset: the members of the constant set
 	Src  ssa.Value
 }
 
@@ -551,7 +561,7 @@ func (p *Prov) atomOf(cond ssa.Value, pol bool) Atom {
 			if ld, ok := x.Call.Args[0].(*ssa.UnOp); ok {
 				if g, ok := ld.X.(*ssa.Global); ok && g.Pkg == p.c.SPkg {
 					if _, isSet := p.Tables.StringSets[g.Name()]; isSet {
-						return Atom{Kind: "inset", Pol: pol, Name: g.Name(), X: x.Call.Args[1], Src: cond}
+						return Atom{Kind: "inset", Pol: pol, Name: g.Name(), X: x.Call.Args[1], Set: append([]string{}, p.Tables.StringSets[g.Name()]...), Src: cond}
 					}
 				}
 			}
@@ -656,6 +666,26 @@ func (p *Prov) atomsAt(b *ssa.BasicBlock) []Atom {
 			a.Or = append(a.Or, p.atomOf(f.Cond, f.Pol))
 		}
 		out = append(out, a)
+	}
+	// `x == "a" || x == "b" || ...` (also the written-out form of slices.Contains over a
+	// constant table, and a multi-value `case`) is membership of x in a constant set
+	for _, a := range out {
+		if a.Kind != "or" || len(a.Or) < 2 {
+			continue
+		}
+		var x ssa.Value
+		var set []string
+		for _, d := range a.Or {
+			if d.Kind != "strconst" || !d.Pol || (x != nil && peel(d.X) != x) {
+				x, set = nil, nil
+				break
+			}
+			x = peel(d.X)
+			set = append(set, d.Name)
+		}
+		if x != nil {
+			out = append(out, Atom{Kind: "inset", Pol: true, X: x, Set: set, Name: strings.Join(set, "|")})
+		}
 	}
 	return out
 }
@@ -885,12 +915,12 @@ func (p *Prov) justify(s *Sink) string {
 		if err != nil {
 			return false
 		}
-		for _, m := range p.Tables.StringSets[a.Name] {
+		for _, m := range a.Set {
 			if _, ok := pol.NamespaceStageAllow[m]; !ok {
 				return false
 			}
 		}
-		return len(p.Tables.StringSets[a.Name]) > 0
+		return len(a.Set) > 0
 	}) && (isStringType(peel(v).Type()) || has(func(a Atom) bool { return a.Kind == "typeis" && a.Pol && isStringType(a.Type) && sameSubject(a.X) })) {
 		return "J3:namespace-stage-shorthand"
 	}
